@@ -528,7 +528,11 @@ def run_error_positions(repo, tier='quick', rule='E6p'):
             whole_line = bad[:lo - 1].strip() == ''         # an expression statement: the expression text is the whole line, leading blanks included
             if whole_line:
                 lo = 1
-            for prefix, start, indent in (([], None, 0), (['# c', '', 'q = 1'], None, 0), ([], 10, 0), ([], None, 3), ([], None, -3)):
+            for prefix, start, indent in (([], None, 0), (['# c', '', 'q = 1'], None, 0), ([], 10, 0), ([], None, 3), ([], None, -3),
+                                          (['', '# c', '', '', 'q = 1', ''], None, 'parts'), (['', ''], 5, 'parts')):
+                as_parts = indent == 'parts'        # the script given as an iterable of lines (one part per line, blank lines are empty parts): same positions
+                if as_parts:
+                    indent = 0
                 if indent and whole_line:
                     continue
                 n += 1
@@ -544,8 +548,11 @@ def run_error_positions(repo, tier='quick', rule='E6p'):
                 else:
                     bad_i = bad
                     text = '\n'.join(prefix + lines) + '\n'
+                if as_parts:
+                    text = AList(list(prefix + lines))
                 got = parse(text) if start is None else parse(text, start)
                 desc = f'faulty expression {fault!r} in the line {bad.strip()!r}' + (f' after {len(prefix)} prepended lines' if prefix else '') + (f' with start line {start}' if start else '') + \
+                    (' given as a list of lines (blank lines are empty parts)' if as_parts else '') + \
                     (f' indented by {indent} more blanks' if indent else '') + (' followed by 3 blanks' if trailing else '')
                 if got[0] == 'ok':
                     problems.append(('accepted', f'{desc}: parse_script accepts the program'))
